@@ -1026,3 +1026,65 @@ class TorchOptimTwin(Oracle):
         with torch.no_grad():
             for p, tp in zip(run.params, self.tparams):
                 tp.copy_(p.detach())
+
+
+class GroupIndependenceTwin(Oracle):
+    """C01 last sentence: one optimizer with k parameter groups behaves exactly like k independent single-group optimizers
+    built with each group's effective hyper-parameters (built through the same param-group mechanism: the optimizer-level
+    arguments plus that group's overrides), each with its own step counter."""
+
+    def on_built(self, run: SingleRun) -> None:
+        self.twins = []
+        for gi, g in enumerate(run.trace["groups"]):
+            sub = {
+                **run.trace,
+                "params": [run.trace["params"][pi] for pi in g["params"]],
+                "groups": [{"params": list(range(len(g["params"]))), "overrides": g.get("overrides", {})}],
+            }
+            tparams = [run.params[pi].detach().clone().requires_grad_(True) for pi in g["params"]]
+            topt = spec.build_optimizer(sub, tparams, pt2=None)
+            self.twins.append((g["params"], tparams, topt))
+        run.log.take()
+
+    def on_hparam(self, run: SingleRun, ei: int, ev: dict) -> None:
+        self.twins[ev["group"]][2].param_groups[0][ev["key"]] = ev["value"]
+
+    def pre_step(self, run: SingleRun, ei: int, ev: dict) -> None:
+        self.prev = []
+        for idxs, tparams, topt in self.twins:
+            for pi, tp in zip(idxs, tparams):
+                g = run.params[pi].grad
+                tp.grad = None if g is None else g.detach().clone()
+            self.prev.append([tp.detach().clone() for tp in tparams])
+
+    def post_step(self, run: SingleRun, ei: int, ev: dict, exc: BaseException | None) -> None:
+        from .worldrun import exact_tol, rel_param_gap
+
+        if exc is not None:
+            return
+        for gi, (idxs, tparams, topt) in enumerate(self.twins):
+            try:
+                topt.step()
+            except Exception as e:  # noqa: BLE001
+                if natural_failure(run, e):
+                    run.probes["ended_by_natural_solver_failure"] += 1
+                    return
+                raise run.violation("group_not_independent", gi, note="single-group twin raised", exc=repr(e)[:200])
+            run.log.take()
+            for k, (pi, tp) in enumerate(zip(idxs, tparams)):
+                a, e_ = run.params[pi].detach(), tp.detach()
+                if not (refmodel.is_finite(a) and refmodel.is_finite(e_)):
+                    run.probes["nonfinite_state_skip"] += 1
+                    continue
+                gap = rel_param_gap(a, e_, self.prev[gi][k])
+                run.probes["group_twin_compare"] += 1
+                if spec.bit_equal(a, e_):
+                    run.probes["group_twin_bit_equal"] += 1
+                if gap > exact_tol(a.dtype):
+                    raise run.violation("group_not_independent", gi, param=pi, gap=gap, tol=exact_tol(a.dtype))
+            p0 = tparams[0]
+            if int(topt.state[p0]["step"].item()) != run.step_tensor(gi):
+                raise run.violation("group_not_independent", gi, note="step counters differ", twin=int(topt.state[p0]["step"].item()), actual=run.step_tensor(gi))
+            with torch.no_grad():
+                for pi, tp in zip(idxs, tparams):
+                    tp.copy_(run.params[pi].detach())
